@@ -43,6 +43,7 @@ def run(ctx):
     rule_block(ctx, F)
     rule_entry(ctx, F)
     rule_sib(ctx, F)
+    rule_svckey(ctx, F)
 
 
 # ---------------------------------------------------------------------------
@@ -697,3 +698,102 @@ def rule_empty(ctx, F):
            "scan_name does not reach the next label after a non-empty label (running length %s after a label "
            "starting at %s): legal names are rejected" % (lost[0] if lost else ("-", "-")), b.where(dot[0][0]),
            detail="sampled pairs: %s" % fulls)
+
+
+# ---------------------------------------------------------------------------
+# SVCB parameters: the writer spells a key as the reader knows it; the reader's key alphabet
+# ---------------------------------------------------------------------------
+
+def _consts_of(b, F, depth=0):
+    """string-like constants (str literals and format templates) a function writes, in block order"""
+    out = []
+    for bi in sorted(b.reachable_blocks()):
+        for st in b.blocks[bi]["s"]:
+            if st[0] == "=" and st[2][0] == "use" and st[2][1][0] == "k":
+                o = st[2][1]
+                if isinstance(o[2], str) and "str" in str(o[1]):
+                    out.append(o[2])
+                elif isinstance(o[2], list) and o[2] and all(isinstance(x, int) for x in o[2]):
+                    out.append(bytes(x & 0xFF for x in o[2]).decode("latin-1"))
+    return out
+
+
+def rule_svckey(ctx, F):
+    R = "C06.svckey"
+    ctx.floor(R, 9)
+    tb = F.body("base::iana::svcb::SvcParamKey::to_mnemonic_str")
+    if not ctx.anchor(R, "SvcParamKey::to_mnemonic_str", tb):
+        return
+    # value -> mnemonic from the switch of the generated function
+    table = {}
+    t0 = tb.blocks[0]["t"]
+    if t0["k"] == "switch":
+        for v, tgt in t0["v"]:
+            seen = set()
+            x = tgt
+            while x is not None and x not in seen and len(seen) < 6:
+                seen.add(x)
+                cs = [st[2][1][2] for st in tb.blocks[x]["s"] if st[0] == "=" and st[2][0] == "use" and st[2][1][0] == "k" and isinstance(st[2][1][2], str)]
+                if cs:
+                    table[v] = cs[0]
+                    break
+                tt = tb.blocks[x]["t"]
+                x = tt.get("t") if tt["k"] in ("goto", "false", "falseunwind", "drop") else None
+    if not ctx.anchor(R, "key mnemonic table", len(table) >= 8, tb.where()):
+        return
+    n = 0
+    for p, b in sorted(F.bodies.items()):
+        m = re.match(r"^<rdata::svcb::value::(\w+)(<.*>)? as rdata::svcb::params::SvcParamValue>::key$", p)
+        if not m:
+            continue
+        ty = m.group(1)
+        kv = None
+        for bi, si, kind, term in return_assignments(b):
+            cv = const_value(deep_strip(term)) if term is not None else None
+            if cv is not None:
+                kv = cv
+        if kv is None or kv not in table:
+            continue
+        db = [x for q, x in F.bodies.items() if re.match(r"^<rdata::svcb::value::%s(<.*>)? as core::fmt::Display>::fmt$" % ty, q)]
+        if not db:
+            continue
+        n += 1
+        consts = _consts_of(db[0], F)
+        want = table[kv]
+        ctx.ob(R, db[0], "%s is written with the mnemonic of its key" % ty, any(want in c for c in consts),
+               "Display of svcb::value::%s writes %s but the key %d is registered (and read) as `%s`: a record carrying this "
+               "parameter is written in a form the reader answers with `unknown SvcParamKey`"
+               % (ty, [c for c in consts if c.strip()][:2], kv, want))
+    # the reader's key alphabet: a-z, 0-9, '-'
+    sb = [x for q, x in F.bodies.items() if re.search(r"SvcParams<.*>::scan::allowed_key_charset$|svcb::params::.*allowed_key_charset$", q)]
+    if ctx.anchor(R, "allowed_key_charset in SvcParams::scan", len(sb) == 1):
+        import c03
+        parts = c03.byte_partition(sb[0], F, lambda tt: deep_strip(tt) == ("arg", 1))
+        ok_set = set()
+        for octs, leaf, path in parts:
+            blocks = list(path) + [leaf]
+            # does this path return true?
+            val = None
+            for bb in blocks:
+                for st in sb[0].blocks[bb]["s"]:
+                    if st[0] == "=" and st[1] == [0] and st[2][0] == "use" and st[2][1][0] == "k":
+                        val = st[2][1][2]
+                    elif st[0] == "=" and st[1] == [0] and st[2][0] == "bin" and st[2][1] in ("Eq", "Ne"):
+                        # the last operand of a `||` chain is returned as it is: `_0 = 0x2D == ch`
+                        ks = [const_value(deep_strip(sb[0].term_of_operand(o))) for o in (st[2][2], st[2][3])]
+                        k = next((x for x in ks if x is not None), None)
+                        if k is not None:
+                            val = ("eq", k) if st[2][1] == "Eq" else ("ne", k)
+            if val in (1, True):
+                ok_set |= octs
+            elif isinstance(val, tuple):
+                ok_set |= {o for o in octs if (o == val[1]) == (val[0] == "eq")}
+        want = set(range(0x61, 0x7B)) | set(range(0x30, 0x3A)) | {0x2D}
+        ctx.ob(R, sb[0], "the reader accepts exactly a-z, 0-9 and '-' in a key", ok_set == want,
+               "SvcParams::scan accepts %s in a SvcParamKey; RFC 9460 2.1 allows a-z, 0-9 and '-' (missing: %s, extra: %s): "
+               "keys such as `key9` or `key65529` that the writer produces cannot be read"
+               % (_fmt_set(ok_set), _fmt_set(want - ok_set), _fmt_set(ok_set - want)))
+
+
+def _fmt_set(s):
+    return "".join(chr(c) if 0x21 <= c < 0x7F else "\\x%02x" % c for c in sorted(s)) or "-"
